@@ -30,6 +30,9 @@ func flagsFor(mode string) txscript.ScriptFlags {
 	case "std":
 	case "nostrict": // undefined hash types are consensus-valid; STRICTENC is policy
 		fl &^= txscript.ScriptVerifyStrictEncoding
+	case "nowpkt": // uncompressed keys in segwit v0 are consensus-valid; WITNESS_PUBKEYTYPE is policy
+		fl &^= txscript.ScriptVerifyWitnessPubKeyType
+		fl &^= txscript.ScriptVerifyStrictEncoding
 	case "codesep": // OP_CODESEPARATOR in a legacy script is rejected by CONST_SCRIPTCODE (policy)
 		fl &^= txscript.ScriptVerifyConstScriptCode
 		fl &^= txscript.ScriptVerifyStrictEncoding
@@ -67,15 +70,33 @@ func execSign(c *ectx, f []string) string {
 			}
 		}
 	}
+	res := "verified"
 	vm, err := txscript.NewEngine(spent[idx].PkScript, tx, idx, flagsFor(f[1]), sc, sh,
 		spent[idx].Value, fetcher)
 	if err != nil {
-		return "failed"
+		res = "failed"
+	} else if err := vm.Execute(); err != nil {
+		res = "failed"
 	}
-	if err := vm.Execute(); err != nil {
-		return "failed"
+	// the exported key-spend verifier must agree with the interpreter on key-path spends
+	pk := spent[idx].PkScript
+	w := tx.TxIn[idx].Witness
+	if f[0] == "tap" && len(pk) == 34 && pk[0] == 0x51 && pk[1] == 0x20 && len(tx.TxIn[idx].SignatureScript) == 0 {
+		n := len(w)
+		if n >= 2 && len(w[n-1]) > 0 && w[n-1][0] == txscript.TaprootAnnexTag {
+			n--
+		}
+		if n == 1 {
+			api := "verified"
+			if txscript.VerifyTaprootKeySpend(pk[2:], w[0], tx, idx, fetcher, sh, nil) != nil {
+				api = "failed"
+			}
+			if api != res {
+				return "keyspend-api-disagrees:" + api + "/" + res
+			}
+		}
 	}
-	return "verified"
+	return res
 }
 
 type keyT struct {
@@ -102,6 +123,14 @@ type signed struct {
 }
 
 // build a tx with nIn inputs / nOut outputs; input idx spends an output of `kind`; sign it with the helper
+// midstate handed to a signing helper: nil where the helper's digest never reads it
+func helperMid(r *core.Rand, ht txscript.SigHashType, tx *wire.MsgTx, spent []*wire.TxOut) *txscript.TxSigHashes {
+	if (ht == 0x82 || ht == 0x83) && r.Bool() {
+		return nil
+	}
+	return txscript.NewTxSigHashes(tx, mkFetcher(tx, spent))
+}
+
 func buildSigned(r *core.Rand, kind string, ht txscript.SigHashType, nIn, nOut, idx int) signed {
 	tx, spent := randTx(r, nIn, nOut)
 	// distinct outpoints so that the fetcher map is exact; other inputs are arbitrary
@@ -266,8 +295,47 @@ func buildSigned(r *core.Rand, kind string, ht txscript.SigHashType, nIn, nOut, 
 		pkScript, err := txscript.PayToAddrScript(a)
 		must(err)
 		spent[idx].PkScript = pkScript
-		sh := txscript.NewTxSigHashes(tx, mkFetcher(tx, spent))
+		sh := helperMid(r, ht, tx, spent)
 		w, err := txscript.WitnessSignature(tx, sh, idx, amt, pkScript, ht, k.priv, true)
+		if err != nil {
+			res.err = true
+			return res
+		}
+		tx.TxIn[idx].Witness = w
+
+	case "p2pkh-direct", "p2pkh-direct-u":
+		// SignatureScript called directly (not through SignTxOutput)
+		res.form = "legacy"
+		k := newKey(r)
+		compress := kind == "p2pkh-direct"
+		ser := k.pub.SerializeCompressed()
+		if !compress {
+			ser = k.pub.SerializeUncompressed()
+		}
+		a, err := address.NewAddressPubKeyHash(address.Hash160(ser), params)
+		must(err)
+		pkScript, err := txscript.PayToAddrScript(a)
+		must(err)
+		spent[idx].PkScript = pkScript
+		ss, err := txscript.SignatureScript(tx, idx, pkScript, ht, k.priv, compress)
+		if err != nil {
+			res.err = true
+			return res
+		}
+		tx.TxIn[idx].SignatureScript = ss
+
+	case "p2wpkh-u":
+		// WitnessSignature with compress=false: consensus-valid, rejected only by WITNESS_PUBKEYTYPE policy
+		res.form = "wit"
+		res.mode = "nowpkt"
+		k := newKey(r)
+		a, err := address.NewAddressWitnessPubKeyHash(address.Hash160(k.pub.SerializeUncompressed()), params)
+		must(err)
+		pkScript, err := txscript.PayToAddrScript(a)
+		must(err)
+		spent[idx].PkScript = pkScript
+		sh := helperMid(r, ht, tx, spent)
+		w, err := txscript.WitnessSignature(tx, sh, idx, amt, pkScript, ht, k.priv, false)
 		if err != nil {
 			res.err = true
 			return res
@@ -334,7 +402,7 @@ func buildSigned(r *core.Rand, kind string, ht txscript.SigHashType, nIn, nOut, 
 		pkScript, err := txscript.PayToAddrScript(a)
 		must(err)
 		spent[idx].PkScript = pkScript
-		sh := txscript.NewTxSigHashes(tx, mkFetcher(tx, spent))
+		sh := helperMid(r, ht, tx, spent)
 		s1, err := txscript.RawTxInWitnessSignature(tx, sh, idx, amt, ws, ht, k1.priv)
 		if err != nil {
 			res.err = true
@@ -360,7 +428,7 @@ func buildSigned(r *core.Rand, kind string, ht txscript.SigHashType, nIn, nOut, 
 		pkScript, err := txscript.PayToTaprootScript(txscript.ComputeTaprootKeyNoScript(k.pub))
 		must(err)
 		spent[idx].PkScript = pkScript
-		sh := txscript.NewTxSigHashes(tx, mkFetcher(tx, spent))
+		sh := helperMid(r, ht, tx, spent)
 		w, err := txscript.TaprootWitnessSignature(tx, sh, idx, amt, pkScript, ht, k.priv)
 		if err != nil {
 			res.err = true
@@ -383,7 +451,7 @@ func buildSigned(r *core.Rand, kind string, ht txscript.SigHashType, nIn, nOut, 
 		pkScript, err := txscript.PayToTaprootScript(outKey)
 		must(err)
 		spent[idx].PkScript = pkScript
-		sh := txscript.NewTxSigHashes(tx, mkFetcher(tx, spent))
+		sh := helperMid(r, ht, tx, spent)
 		sig, err := txscript.RawTxInTapscriptSignature(tx, sh, idx, amt, pkScript, leaves[0], ht, k.priv)
 		if err != nil {
 			res.err = true
@@ -558,13 +626,13 @@ func mutate(r *core.Rand, kind string, tx *wire.MsgTx, spent []*wire.TxOut, idx 
 }
 
 var signKinds = []string{"p2pk", "p2pkh", "p2pkh-u", "multisig", "p2sh-p2pkh", "p2sh-multisig", "legacy-codesep",
-	"multisig-merge", "p2sh-multisig-merge", "p2sh-p2wpkh", "p2tr-key-tree", "p2tr-script-codesep",
+	"multisig-merge", "p2sh-multisig-merge", "p2sh-p2wpkh", "p2tr-key-tree", "p2tr-script-codesep", "p2pkh-direct", "p2pkh-direct-u", "p2wpkh-u",
 	"p2wpkh", "p2wsh", "p2wsh-codesep", "p2wsh-multisig", "p2tr-key", "p2tr-script"}
 
 func genSign(g *core.Gen) {
 	r := g.R
 	definedHT := []txscript.SigHashType{1, 2, 3, 0x81, 0x82, 0x83}
-	for k := 0; k < g.N(468, 4680); k++ {
+	for k := 0; k < g.N(504, 5040); k++ {
 		kind := signKinds[k%len(signKinds)]
 		nIn, nOut := 1+r.Intn(3), r.Intn(4)
 		idx := r.Intn(nIn)
